@@ -461,7 +461,7 @@ pub fn run(args: &Args, corpus: &[String]) -> serde_json::Value {
     rep.notes.push(format!("all strings of length <= {max_len} over the 24-symbol alphabet enumerated exhaustively"));
     let mut rng = Rng::new(args.seed ^ 0x22 ^ (shard << 32));
     for _ in 0..n_random {
-        let ml = if rng.chance(1, 50) { 4096 } else { 48 };
+        let ml = if args.num("lite", 0) != 0 { if rng.chance(1, 20) { 160 } else { 32 } } else if rng.chance(1, 50) { 4096 } else { 48 };
         let s = random_text(&mut rng, ml);
         check_one(&mut rep, &s, "random");
     }
